@@ -1090,6 +1090,40 @@ func genericRules(w *World, r *Report, prop string) {
 				}
 				used := errUsedFrom(fam, v, nn)
 				if !used && len(nn.Preds) == 1 {
+					// the branch reports a failure of its own making (`return x, ErrInvalid(name)`): the cause is replaced, the
+					// failure is not dropped
+					res := fn.Signature.Results()
+					if res.Len() > 0 && isErrorType(res.At(res.Len()-1).Type()) {
+						all, any := true, false
+						for _, b2 := range fn.Blocks {
+							if b2 != nn && !nn.Dominates(b2) {
+								continue
+							}
+							if ret, isRet := b2.Instrs[len(b2.Instrs)-1].(*ssa.Return); isRet {
+								any = true
+								if last := returnedValue(ret, len(ret.Results)-1); last == nil || isNilConst(last) {
+									all = false
+								}
+							}
+						}
+						// and the branch does not fall out of its region (it leaves the function on every path)
+						leaves := true
+						for _, b2 := range fn.Blocks {
+							if b2 != nn && !nn.Dominates(b2) {
+								continue
+							}
+							for _, sc := range b2.Succs {
+								if sc != nn && !nn.Dominates(sc) {
+									leaves = false
+								}
+							}
+						}
+						if any && all && leaves {
+							used = true
+						}
+					}
+				}
+				if !used && len(nn.Preds) == 1 {
 					// a function that cannot return an error (no error result) and logs the failure on its branch has
 					// made the decision visible (util.Base64Msg: log and return "")
 					res := fn.Signature.Results()
